@@ -685,3 +685,29 @@ class WsFeed(ProducerContract):
             # which message is being dispatched (for the identical-payload obligation)
             st.ghost['current_message'] = ip.env.vars.get('message')
         return ProducerContract.at_yield(self, ip, k, v, node)
+
+
+@contract('lomond.websocket.WebSocket.__exit__', serves=['C13'])
+class WsExit(Contract):
+    """leaving a `with websocket:` block releases the session's socket, whatever the event"""
+    def setup(self, ip, v):
+        W = world(ip, session='opt')
+        from pyvc.sval import Opaque
+        return dict(self=W.ws, exc_type=Opaque('exc_type'), exc_value=Opaque('exc'), traceback=Opaque('tb'))
+
+    def requires(self, ip, a):
+        W = ip.st.ghost['W']
+        g = ip.st.ghost[W.lock.key]
+        return [('lock-free-or-reentrant', BoolVal(g['held'] == 0 or g['reentrant']))]
+
+    def modifies(self, ip, a):
+        W = ip.st.ghost['W']
+        return [('heap', W.session, '_sock', T.Const(None))]
+
+    def ensures(self, ip, a, old, res):
+        st = ip.st
+        W = st.ghost['W']
+        sess = old.get(W.state, 'session')
+        has_session = Not(sess.is_none) if isinstance(sess, SOpt) else BoolVal(sess is not None)
+        return [('socket-released', Implies(has_session, sock_is_none(st.get(W.session, '_sock')))),
+                ('exception-not-swallowed', BoolVal(res is None or res is False))]
